@@ -128,6 +128,9 @@ func mergeConfigDict(opts *options, to, from *Config) Error {
 			return err
 		}
 
+		if storedInPlace(old, merged) {
+			continue
+		}
 		to.fields.set(k, merged.cpy(ctx))
 	}
 
@@ -208,6 +211,9 @@ func mergeConfigMergeArr(opts, elemOpts *options, to, from *Config) Error {
 		if err != nil {
 			return err
 		}
+		if storedInPlace(old, merged) {
+			continue
+		}
 		to.fields.setAt(i, parent, merged.cpy(ctx))
 	}
 
@@ -231,7 +237,15 @@ func mergeConfigPrependArr(opts *options, to, from *Config) Error {
 		a: make([]value, 0, len(a1)+len(a2)),
 	}
 	fields.append(parent, a2)
-	fields.append(parent, a1)
+
+	// The old elements move behind the new ones. They are renumbered, not
+	// copied: child handles obtained for them (Config.Child) are live views
+	// and have to stay attached. (In a self merge a2 is a1: the copies have
+	// been made above.)
+	for _, v := range a1 {
+		setContextField(v, fmt.Sprintf("%d", len(fields.a)))
+		fields.a = append(fields.a, v)
+	}
 	*to.fields = fields
 	return nil
 }
@@ -239,6 +253,19 @@ func mergeConfigPrependArr(opts *options, to, from *Config) Error {
 func mergeConfigAppendArr(opts *options, to, from *Config) Error {
 	to.fields.append(cfgSub{to}, from.fields.array())
 	return nil
+}
+
+// storedInPlace reports whether merged is the sub-configuration that is stored
+// as old already, i.e. mergeValues has merged the new settings into it in
+// place. It must not be replaced by a copy: child handles obtained for it
+// (Config.Child) are live views and have to stay attached.
+func storedInPlace(old, merged value) bool {
+	oldSub, ok := old.(cfgSub)
+	if !ok {
+		return false
+	}
+	mergedSub, ok := merged.(cfgSub)
+	return ok && oldSub.c == mergedSub.c
 }
 
 func mergeValues(opts *options, old, v value) (value, Error) {
